@@ -1,5 +1,429 @@
-//! (stub)
+//! C15 — conversions between hash variants commute and lose nothing.
+//!
+//! Explicit-state search per seed hash: state = (variant, real object,
+//! "a normalising step was taken"); actions = every conversion edge, each
+//! `into_mut_*` with a destination from a dirt menu.  The space closes per seed
+//! (at most 12 states), so conversion chains of any length are covered.
+
 use crate::common::*;
-use serde_json::Value;
-pub fn replay(_c: &Value) -> Result<(), String> { Err("not implemented".into()) }
-pub fn run(_ctx: &Ctx) -> Report { Report::new("model_checking") }
+use crate::corpus;
+use crate::explore;
+use crate::hashobj::*;
+use refmodel::text as rt;
+use serde_json::{json, Value};
+use ssdeep::{
+    DualFuzzyHash, FuzzyHash, FuzzyHashOperationError, LongDualFuzzyHash, LongFuzzyHash, LongRawFuzzyHash, RawFuzzyHash,
+};
+use stateright::{Model, Property};
+use std::convert::TryFrom;
+use std::hash::{Hash, Hasher};
+
+#[derive(Clone, Copy, Debug)]
+pub enum Obj {
+    RS(RawFuzzyHash),
+    RL(LongRawFuzzyHash),
+    NS(FuzzyHash),
+    NL(LongFuzzyHash),
+    DS(DualFuzzyHash),
+    DL(LongDualFuzzyHash),
+}
+
+#[derive(Clone, Debug)]
+pub struct St {
+    obj: Obj,
+    normed: bool,
+    bad: Option<String>,
+}
+impl St {
+    fn key(&self) -> String {
+        format!("{:?}|{}|{}", self.obj, self.normed, self.bad.is_some())
+    }
+}
+impl PartialEq for St {
+    fn eq(&self, o: &Self) -> bool {
+        self.key() == o.key()
+    }
+}
+impl Eq for St {}
+impl Hash for St {
+    fn hash<H: Hasher>(&self, h: &mut H) {
+        self.key().hash(h)
+    }
+}
+
+type Seed = (u8, Vec<u8>, Vec<u8>);
+
+pub struct ConvModel {
+    pub seed: Seed,
+}
+
+const N_EDGES: usize = 44;
+const N_DIRT: usize = 3;
+
+fn dirt_rs(d: usize) -> RawFuzzyHash {
+    match d {
+        0 => RawFuzzyHash::new(),
+        1 => RawFuzzyHash::new_from_internals_near_raw(30, &[63; 64], &[63; 32]),
+        _ => RawFuzzyHash::new_from_internals_near_raw(9, &corpus::ramp(64, 5), &[7; 32]),
+    }
+}
+fn dirt_rl(d: usize) -> LongRawFuzzyHash {
+    match d {
+        0 => LongRawFuzzyHash::new(),
+        1 => LongRawFuzzyHash::new_from_internals_near_raw(30, &[63; 64], &[63; 64]),
+        _ => LongRawFuzzyHash::new_from_internals_near_raw(9, &corpus::ramp(64, 5), &[7; 64]),
+    }
+}
+fn dirt_ds(d: usize) -> DualFuzzyHash {
+    DualFuzzyHash::from_raw_form(&dirt_rs(d))
+}
+fn dirt_dl(d: usize) -> LongDualFuzzyHash {
+    LongDualFuzzyHash::from_raw_form(&dirt_rl(d))
+}
+
+fn content(seed: &Seed, normed: bool) -> (Vec<u8>, Vec<u8>) {
+    if normed {
+        (refmodel::normalize(&seed.1), refmodel::normalize(&seed.2))
+    } else {
+        (seed.1.clone(), seed.2.clone())
+    }
+}
+
+/// The oracle: the object must be the direct conversion of the seed.
+fn judge(seed: &Seed, st: &St) -> Result<(), String> {
+    if let Some(b) = &st.bad {
+        return Err(b.clone());
+    }
+    let normed_content = match st.obj {
+        Obj::NS(_) | Obj::NL(_) => true,
+        _ => st.normed,
+    };
+    let (c1, c2) = content(seed, normed_content);
+    macro_rules! plain {
+        ($h:expr, $ty:ty) => {{
+            let h = $h;
+            if !h.is_valid() || !h.ref_valid() {
+                return Err(format!("{}: object fails the validity check: {:?}", <$ty as Plain>::NAME, h));
+            }
+            let exp = <$ty>::new_from_internals_near_raw(seed.0, &c1, &c2);
+            if *h != exp || !h.full_eq(&exp) {
+                return Err(format!("{}: {} is not the direct conversion {}", <$ty as Plain>::NAME, h, exp));
+            }
+            // the text differs from the source text at most by run collapsing
+            let text = h.to_string();
+            let p = rt::parse(text.as_bytes(), rt::Rule { cap1: 64, cap2: 64, count_normalized: false, strict: false })
+                .map_err(|_| "result text does not parse".to_string())?;
+            if p.log != seed.0 || refmodel::normalize(&p.bh1) != refmodel::normalize(&seed.1) || refmodel::normalize(&p.bh2) != refmodel::normalize(&seed.2) {
+                return Err(format!("text {} differs from the source by more than run collapsing", text));
+            }
+        }};
+    }
+    macro_rules! dual {
+        ($d:expr, $ty:ty, $raw:ty) => {{
+            let d = $d;
+            if !d.is_valid() {
+                return Err(format!("{}: dual fails the validity check: {:?}", <$ty as Dual>::NAME, d));
+            }
+            let exp = <$ty>::new_from_internals_near_raw(seed.0, &c1, &c2);
+            if *d != exp || format!("{:?}", d) != format!("{:?}", exp) {
+                return Err(format!("{}: {:?} is not the direct conversion {:?}", <$ty as Dual>::NAME, d, exp));
+            }
+            let r: $raw = d.to_raw_form();
+            if r.block_hash_1() != &c1[..] || r.block_hash_2() != &c2[..] || r.log_block_size() != seed.0 {
+                return Err(format!("{}: raw form {} differs", <$ty as Dual>::NAME, r));
+            }
+        }};
+    }
+    match &st.obj {
+        Obj::RS(h) => plain!(h, RawFuzzyHash),
+        Obj::RL(h) => plain!(h, LongRawFuzzyHash),
+        Obj::NS(h) => plain!(h, FuzzyHash),
+        Obj::NL(h) => plain!(h, LongFuzzyHash),
+        Obj::DS(d) => dual!(d, DualFuzzyHash, RawFuzzyHash),
+        Obj::DL(d) => dual!(d, LongDualFuzzyHash, LongRawFuzzyHash),
+    }
+    Ok(())
+}
+
+/// Apply one conversion edge.  `None` = edge not applicable to this variant.
+fn apply(seed: &Seed, st: &St, edge: usize, dirt: usize) -> Option<St> {
+    let ok = |obj: Obj, normed: bool| Some(St { obj, normed, bad: None });
+    let bad = |m: String| Some(St { obj: st.obj, normed: st.normed, bad: Some(m) });
+    let n = st.normed;
+    // narrowing helper: must fail exactly when block hash 2 is longer than 32, leaving the destination untouched
+    macro_rules! narrow {
+        ($src:expr, $mk:path, $dirtfn:expr, $bh2len:expr) => {{
+            let mut dst = $dirtfn;
+            let before = format!("{:?}", dst);
+            let keep = dst;
+            let r = guarded(|| $src.try_into_mut_short(&mut dst));
+            match r {
+                Err(p) => bad(format!("panic in try_into_mut_short: {}", p)),
+                Ok(Ok(())) => {
+                    if $bh2len > 32 {
+                        bad(format!("narrowing succeeded with block hash 2 of {} symbols", $bh2len))
+                    } else {
+                        ok($mk(dst), n)
+                    }
+                }
+                Ok(Err(e)) => {
+                    if $bh2len <= 32 {
+                        bad(format!("narrowing failed ({:?}) with block hash 2 of {} symbols", e, $bh2len))
+                    } else if e != FuzzyHashOperationError::BlockHashOverflow {
+                        bad(format!("narrowing failed with {:?}", e))
+                    } else if format!("{:?}", dst) != before || !dst.full_eq(&keep) {
+                        bad(format!("failed narrowing modified the destination: {} -> {:?}", before, dst))
+                    } else {
+                        None // stays where it was; not a transition
+                    }
+                }
+            }
+        }};
+    }
+    macro_rules! tryfrom {
+        ($src:expr, $dstty:ty, $mk:path, $bh2len:expr) => {{
+            match guarded(|| <$dstty>::try_from($src)) {
+                Err(p) => bad(format!("panic in TryFrom: {}", p)),
+                Ok(Ok(v)) => {
+                    if $bh2len > 32 {
+                        bad(format!("TryFrom succeeded with block hash 2 of {} symbols", $bh2len))
+                    } else {
+                        ok($mk(v), n)
+                    }
+                }
+                Ok(Err(e)) => {
+                    if $bh2len <= 32 || e != FuzzyHashOperationError::BlockHashOverflow {
+                        bad(format!("TryFrom failed ({:?}) with block hash 2 of {} symbols", e, $bh2len))
+                    } else {
+                        None
+                    }
+                }
+            }
+        }};
+    }
+    macro_rules! g {
+        ($e:expr, $mk:path, $normed:expr) => {{
+            match guarded(|| $e) {
+                Ok(v) => ok($mk(v), $normed),
+                Err(p) => bad(format!("panic in edge {}: {}", edge, p)),
+            }
+        }};
+    }
+    let _ = seed;
+    match (&st.obj, edge) {
+        // ---- short raw
+        (Obj::RS(h), 0) => g!(h.to_long_form(), Obj::RL, n),
+        (Obj::RS(h), 1) => g!({ let mut d = dirt_rl(dirt); h.into_mut_long_form(&mut d); d }, Obj::RL, n),
+        (Obj::RS(h), 2) => g!(LongRawFuzzyHash::from_short_form(h), Obj::RL, n),
+        (Obj::RS(h), 3) => g!(LongRawFuzzyHash::from(*h), Obj::RL, n),
+        (Obj::RS(h), 4) => g!(h.normalize(), Obj::NS, true),
+        (Obj::RS(h), 5) => g!(FuzzyHash::from_raw_form(h), Obj::NS, true),
+        (Obj::RS(h), 6) => g!(FuzzyHash::from(*h), Obj::NS, true),
+        (Obj::RS(h), 7) => g!({ let mut x = *h; x.normalize_in_place(); x }, Obj::RS, true),
+        (Obj::RS(h), 8) => g!(h.clone_normalized(), Obj::RS, true),
+        (Obj::RS(h), 9) => g!(DualFuzzyHash::from_raw_form(h), Obj::DS, n),
+        (Obj::RS(h), 10) => g!({ let mut d = dirt_ds(dirt); d.init_from_raw_form(h); d }, Obj::DS, n),
+        // ---- long raw
+        (Obj::RL(h), 11) => narrow!(h, Obj::RS, dirt_rs(dirt), h.block_hash_2_len()),
+        (Obj::RL(h), 12) => tryfrom!(*h, RawFuzzyHash, Obj::RS, h.block_hash_2_len()),
+        (Obj::RL(h), 13) => g!(h.normalize(), Obj::NL, true),
+        (Obj::RL(h), 14) => g!(LongFuzzyHash::from_raw_form(h), Obj::NL, true),
+        (Obj::RL(h), 15) => g!(LongFuzzyHash::from(*h), Obj::NL, true),
+        (Obj::RL(h), 16) => g!({ let mut x = *h; x.normalize_in_place(); x }, Obj::RL, true),
+        (Obj::RL(h), 17) => g!(h.clone_normalized(), Obj::RL, true),
+        (Obj::RL(h), 18) => g!(LongDualFuzzyHash::from_raw_form(h), Obj::DL, n),
+        (Obj::RL(h), 19) => g!({ let mut d = dirt_dl(dirt); d.init_from_raw_form(h); d }, Obj::DL, n),
+        // ---- short normalized
+        (Obj::NS(h), 20) => g!(h.to_long_form(), Obj::NL, true),
+        (Obj::NS(h), 21) => g!({ let mut d = LongFuzzyHash::from_raw_form(&dirt_rl(dirt)); h.into_mut_long_form(&mut d); d }, Obj::NL, true),
+        (Obj::NS(h), 22) => g!(LongFuzzyHash::from_short_form(h), Obj::NL, true),
+        (Obj::NS(h), 23) => g!(LongFuzzyHash::from(*h), Obj::NL, true),
+        (Obj::NS(h), 24) => g!(h.to_raw_form(), Obj::RS, true),
+        (Obj::NS(h), 25) => g!({ let mut d = dirt_rs(dirt); h.into_mut_raw_form(&mut d); d }, Obj::RS, true),
+        (Obj::NS(h), 26) => g!(RawFuzzyHash::from_normalized(h), Obj::RS, true),
+        (Obj::NS(h), 27) => g!(RawFuzzyHash::from(*h), Obj::RS, true),
+        (Obj::NS(h), 28) => g!(LongRawFuzzyHash::from(*h), Obj::RL, true),
+        (Obj::NS(h), 29) => g!(DualFuzzyHash::from_normalized(h), Obj::DS, true),
+        (Obj::NS(h), 30) => g!(DualFuzzyHash::from(*h), Obj::DS, true),
+        (Obj::NS(h), 31) => g!(h.normalize(), Obj::NS, true),
+        // ---- long normalized
+        (Obj::NL(h), 32) => narrow!(h, Obj::NS, FuzzyHash::from_raw_form(&dirt_rs(dirt)), h.block_hash_2_len()),
+        (Obj::NL(h), 33) => tryfrom!(*h, FuzzyHash, Obj::NS, h.block_hash_2_len()),
+        (Obj::NL(h), 34) => g!(h.to_raw_form(), Obj::RL, true),
+        (Obj::NL(h), 35) => g!({ let mut d = dirt_rl(dirt); h.into_mut_raw_form(&mut d); d }, Obj::RL, true),
+        (Obj::NL(h), 36) => g!(LongRawFuzzyHash::from(*h), Obj::RL, true),
+        (Obj::NL(h), 37) => g!(LongDualFuzzyHash::from_normalized(h), Obj::DL, true),
+        // ---- duals
+        (Obj::DS(d), 38) => g!(d.to_raw_form(), Obj::RS, n),
+        (Obj::DS(d), 39) => g!({ let mut x = dirt_rs(dirt); d.into_mut_raw_form(&mut x); x }, Obj::RS, n),
+        (Obj::DS(d), 40) => g!(d.to_normalized(), Obj::NS, true),
+        (Obj::DS(d), 41) => g!({ let mut x = *d; x.normalize_in_place(); x }, Obj::DS, true),
+        (Obj::DL(d), 38) => g!(d.to_raw_form(), Obj::RL, n),
+        (Obj::DL(d), 39) => g!({ let mut x = dirt_rl(dirt); d.into_mut_raw_form(&mut x); x }, Obj::RL, n),
+        (Obj::DL(d), 40) => g!(*d.as_normalized(), Obj::NL, true),
+        (Obj::DL(d), 41) => g!({ let mut x = *d; x.normalize_in_place(); x }, Obj::DL, true),
+        (Obj::DS(d), 42) => g!(FuzzyHash::from_raw_form(&d.to_raw_form()), Obj::NS, true),
+        (Obj::DL(d), 43) => g!(LongFuzzyHash::from_raw_form(&d.to_raw_form()), Obj::NL, true),
+        _ => None,
+    }
+}
+
+fn uses_dirt(edge: usize) -> bool {
+    matches!(edge, 1 | 10 | 11 | 19 | 21 | 25 | 32 | 35 | 39)
+}
+
+impl Model for ConvModel {
+    type State = St;
+    type Action = (usize, usize);
+    fn init_states(&self) -> Vec<St> {
+        // the seed as a long raw hash (always representable)
+        let h = LongRawFuzzyHash::new_from_internals_near_raw(self.seed.0, &self.seed.1, &self.seed.2);
+        vec![St { obj: Obj::RL(h), normed: false, bad: None }]
+    }
+    fn actions(&self, _s: &St, a: &mut Vec<(usize, usize)>) {
+        for e in 0..N_EDGES {
+            if uses_dirt(e) {
+                for d in 0..N_DIRT {
+                    a.push((e, d));
+                }
+            } else {
+                a.push((e, 0));
+            }
+        }
+    }
+    fn next_state(&self, s: &St, (e, d): (usize, usize)) -> Option<St> {
+        if s.bad.is_some() {
+            return None;
+        }
+        apply(&self.seed, s, e, d)
+    }
+    fn properties(&self) -> Vec<Property<Self>> {
+        vec![Property::always("result-is-the-direct-conversion-of-the-seed", |m, s: &St| judge(&m.seed, s).is_ok())]
+    }
+}
+
+fn run_path(seed: &Seed, path: &[(usize, usize)]) -> Result<(), String> {
+    let m = ConvModel { seed: seed.clone() };
+    let mut s = m.init_states().remove(0);
+    judge(seed, &s)?;
+    for &(e, d) in path {
+        match apply(seed, &s, e, d) {
+            Some(ns) => {
+                s = ns;
+                judge(seed, &s).map_err(|m| format!("after edge {} (dirt {}): {}", e, d, m))?;
+            }
+            None => {}
+        }
+    }
+    Ok(())
+}
+
+pub fn replay(c: &Value) -> Result<(), String> {
+    let seed: Seed = (
+        c["seed"]["log"].as_u64().ok_or("log")? as u8,
+        unhex(c["seed"]["bh1"].as_str().ok_or("bh1")?),
+        unhex(c["seed"]["bh2"].as_str().ok_or("bh2")?),
+    );
+    let path: Vec<(usize, usize)> = c["path"]
+        .as_array()
+        .ok_or("path")?
+        .iter()
+        .map(|p| (p[0].as_u64().unwrap_or(0) as usize, p[1].as_u64().unwrap_or(0) as usize))
+        .collect();
+    run_path(&seed, &path)
+}
+
+fn case(seed: &Seed, path: &[(usize, usize)]) -> Value {
+    json!({"seed": {"log": seed.0, "bh1": hex(&seed.1), "bh2": hex(&seed.2), "text": rt::format(seed.0, &seed.1, &seed.2)},
+           "path": path.iter().map(|p| json!([p.0, p.1])).collect::<Vec<_>>()})
+}
+
+pub fn seeds(thorough: bool) -> Vec<Seed> {
+    let mut s: Vec<Seed> = corpus::hash_corpus(64, thorough).into_iter().step_by(if thorough { 2 } else { 7 }).collect();
+    // block hash 2 around the narrowing border, raw and after run collapsing
+    for l in 28..=40usize {
+        s.push((3, vec![1, 2, 3], corpus::ramp(l, 0)));
+        let mut v = corpus::ramp(l.saturating_sub(8), 0);
+        v.extend(vec![0u8; 8]);
+        s.push((30, vec![0, 0, 0, 0, 0], v.clone()));
+        let mut w = vec![63u8; 6];
+        w.extend(corpus::ramp(l - 6, 9));
+        s.push((0, corpus::ramp(64, 1), w));
+    }
+    s.push((0, vec![], vec![]));
+    s.push((30, vec![63; 64], vec![63; 64]));
+    s.push((30, vec![0; 64], vec![0; 33]));
+    s.sort();
+    s.dedup();
+    s
+}
+
+pub fn run(ctx: &Ctx) -> Report {
+    let mut rep = Report::new("model_checking");
+    let thorough = ctx.tier == Tier::Thorough;
+    let sd = seeds(thorough);
+    let acc = par_shards(sd.len(), |i, acc| {
+        let m = ConvModel { seed: sd[i].clone() };
+        let b = explore::bfs(&m, 10_000, 4);
+        acc.evaluations += b.transitions;
+        acc.nontrivial += b.states;
+        acc.count("states", b.states);
+        acc.count("transitions", b.transitions);
+        acc.max("max_states_per_seed", b.states);
+        acc.max("max_depth", b.depth);
+        acc.bump(&format!("states_per_seed={:02}", b.states));
+        if b.capped {
+            acc.count("capped", 1);
+        }
+        if let Some((_name, path)) = &b.violation {
+            let what = run_path(&sd[i], path).err().unwrap_or_else(|| "invariant failed".into());
+            acc.violation(
+                format!("seed={} path={:?}", rt::format(sd[i].0, &sd[i].1, &sd[i].2), path),
+                what,
+                case(&sd[i], path),
+            );
+        } else {
+            // re-execute recorded paths from scratch on fresh objects
+            for p in &b.sample_paths {
+                acc.count("traces", 1);
+                if let Err(e) = run_path(&sd[i], p) {
+                    acc.violation(format!("trace seed={}", rt::format(sd[i].0, &sd[i].1, &sd[i].2)), e, case(&sd[i], p));
+                }
+            }
+            if i % 997 == 5 {
+                if let Some(p) = b.sample_paths.first() {
+                    acc.sample(case(&sd[i], p));
+                }
+            }
+        }
+    });
+    let states = acc.counters.get("states").copied().unwrap_or(0);
+    let transitions = acc.counters.get("transitions").copied().unwrap_or(0);
+    let traces = acc.counters.get("traces").copied().unwrap_or(0);
+    let capped = acc.counters.get("capped").copied().unwrap_or(0);
+    acc.into_report(&mut rep, "conversion_graph_per_seed");
+    // cross-check a handful of seeds with stateright (two explorers must agree on the state count)
+    let mut agree = 0;
+    for i in (0..sd.len()).step_by((sd.len() / 6).max(1)) {
+        let b = explore::bfs(&ConvModel { seed: sd[i].clone() }, 10_000, 0);
+        let sr = explore::run_stateright(ConvModel { seed: sd[i].clone() }, 2);
+        if b.violation.is_none() && sr.discoveries.is_empty() {
+            if sr.unique != b.states {
+                eprintln!("mc: explorers disagree on seed {}: {} vs {}", i, sr.unique, b.states);
+                std::process::exit(5);
+            }
+            agree += 1;
+        }
+    }
+    rep.set("stateright_crosschecked_seeds", agree);
+    rep.set("seeds", sd.len());
+    rep.set("states", states);
+    rep.set("transitions", transitions);
+    rep.set("traces_validated_against_impl", traces);
+    rep.set("exhaustive", capped == 0);
+    rep.set(
+        "rule",
+        "per seed hash (strided HASH corpus plus block hash 2 of 28..40 symbols raw / after run collapsing): BFS over (variant in {short/long raw, short/long normalized, short/long dual}, object, normalising-step-taken) under 44 conversion edges x 3 destination dirt states; closed space per seed; in every state the object must be valid and full_eq the direct conversion of the seed; narrowing must fail exactly when block hash 2 > 32 and leave the (dirty) destination untouched.",
+    );
+    rep
+}
